@@ -143,24 +143,29 @@ def guarded(fn):
 
 
 class Scripted(random.Random):
-    """generator whose random() returns scripted values and whose choice() returns the scripted index;
-    choices() is CPython's own (it calls self.random())"""
-    def __init__(self, script):
+    """generator whose random() returns scripted values and whose choice() returns the element at the
+    scripted index; choices() is CPython's own (it calls self.random()).  How many numbers a sample()
+    call asks for is up to the implementation: the script is cycled, `used` counts the requests."""
+    def __init__(self, us=(), idx=()):
         super().__init__(0)
-        self.script = list(script)
+        self.us = list(us) or [0.5]
+        self.idx = list(idx) or [0]
+        self.nu = self.ni = 0
         self.used = 0
 
     def random(self):
+        v = self.us[self.nu % len(self.us)]
+        self.nu += 1
         self.used += 1
-        kind, v = self.script.pop(0)
-        assert kind == "u"
         return v
 
     def choice(self, seq):
+        if not len(seq):
+            raise IndexError('Cannot choose from an empty sequence')
+        v = self.idx[self.ni % len(self.idx)]
+        self.ni += 1
         self.used += 1
-        kind, v = self.script.pop(0)
-        assert kind == "i"
-        return seq[v]
+        return seq[v % len(seq)]
 
 
 class Recording(random.Random):
@@ -245,14 +250,14 @@ def one(case, pl):
     # the generic FiniteDistribution.sample on every kind (list / tuple / dict-keys / generator supports), k = 1 and k = 3
     gd = []
     for u in case.get("gdraws", []):
-        rng = Scripted([["u", fl(u)]] * 2)
+        rng = Scripted(us=[fl(u)])
         def gg():
             e = FiniteDistribution.sample(d1, rng=rng)
             return {"event": enc(e), "used": rng.used}
         gd.append(guarded(gg))
     res["gdraws"] = gd
     def kd():
-        rng = Scripted([["u", fl(u)] for u in case.get("gdraws", [])])
+        rng = Scripted(us=[fl(u) for u in case.get("gdraws", [])])
         r = FiniteDistribution.sample(d1, rng=rng, k=len(case.get("gdraws", [])))
         if isinstance(r, list):
             return {"events": [enc(e) for e in r], "used": rng.used}
@@ -266,7 +271,7 @@ def one(case, pl):
     # scripted sampling: one generator per draw, so that every draw is compared on its own
     draws = []
     for kind, v in case["script"]:
-        rng = Scripted([[kind, fl(v) if kind == "u" else int(v)]] * 2)
+        rng = Scripted(us=[fl(v)]) if kind == "u" else Scripted(idx=[int(v)])
         def go():
             e = d1.sample(rng=rng)
             return {"event": enc(e), "used": rng.used}
@@ -287,6 +292,25 @@ def one(case, pl):
                 "same_plain": s2a == s2b, "plain_seq": [enc(e) for e in s2a],
                 "plain_probs": [fj(d1.prob(e)) for e in s2a]}
     res["seeded"] = guarded(seeded)
+    # the same sampling sequence, mixing several distributions on ONE shared generator, run twice from
+    # equally seeded generators: the two sequences must be identical
+    def mixed():
+        pool = [("d1", d1), ("d2", d2)] + [("k%d" % j, build(v)) for j, (k, v) in enumerate(case["kern"])]
+        sup = list(d1.support)
+        if sup:
+            pool.append(("u1", UniformDistribution([sup[0]])))
+        def run(rng):
+            out = []
+            for ix in case.get("mixed_order", []):
+                nm, d = pool[ix % len(pool)]
+                try:
+                    out.append([nm, enc(d.sample(rng=rng))])
+                except Exception as e:
+                    out.append([nm, "error:" + type(e).__name__])
+            return out
+        a_, b_ = run(random.Random(seed)), run(random.Random(seed))
+        return {"seq": a_, "same": a_ == b_}
+    res["mixed"] = guarded(mixed)
     return res
 
 
